@@ -13,6 +13,7 @@ import Comrak.Cm
 import Comrak.Lemmas.Cm
 import Comrak.Lemmas.CmFrame
 import Comrak.Lemmas.Escape
+import Comrak.Lemmas.CmCanonC
 namespace Comrak.C07
 open Comrak Bytes Comrak.Cm
 
@@ -230,5 +231,15 @@ def quoteNineTen : Tree :=
 example :
     renderCm {} quoteNineTen = [0x3E, 0x20, 0x39, 0x2E, 0x20, 0x61, 0x0A, 0x3E, 0x20, 0x31, 0x30, 0x2E, 0x20, 0x62, 0x0A] := by
   decide +kernel
+
+/-- **Round trip on the canonical class (partial), modulo the parser correspondence.** For a
+    canonical document in the sub-class `Doc.cmOk` (see `C17.cm_fixed_point_canon_partial` for the
+    class and the excluded constructs) the writer's output is the document's own text; hence any
+    `parse` that maps that text to the tree the document spells (what the K harness checks for
+    comrak's `parse_document`) maps the writer's output back to the tree it was given. -/
+theorem cm_round_trip_canon_partial (parse : Bytes → Tree) (d : Canon.Doc) (_h : d.ok = true) (hc : d.cmOk = true)
+    (hK : parse d.write = d.toTree) :
+    parse (renderCm {} d.toTree) = d.toTree := by
+  rw [CmCanon.cm_fixed d hc, hK]
 
 end Comrak.C07
